@@ -106,13 +106,13 @@ CLAIMED = {
         text=("Proved in Lean for any number of ranges of any (also negative or one-element) extent: LatticeBounds.indices "
               "enumerates exactly the declared index box with the first index varying fastest (indices_first_index_fastest, "
               "mem_indexBox) and LatticeSpec.items pairs the i-th array entry with the i-th index (items_zip); over any "
-              "field, latticeReciprocal returns the dual basis in 1, 2 and 3 dimensions (rᵢ·vⱼ = δᵢⱼ) and, for one pair "
-              "of planes, the base vector of squareLatticeBaseVectors carries the second plane onto the first whichever "
-              "side the first-listed surface has. On every run the Lean reference semantics (locate: element index, "
+              "field, latticeReciprocal returns the dual basis in 1, 2 and 3 dimensions (rᵢ·vⱼ = δᵢⱼ) and, for one, two "
+              "and three pairs of planes, each base vector of squareLatticeBaseVectors carries the second plane of its "
+              "pair onto the first and is parallel to the planes of the other pairs, whichever side the first-listed "
+              "surface has (squareBase_1d/2d/3d). On every run the Lean reference semantics (locate: element index, "
               "filling universe, provenance) is evaluated at sample points of rectangular/skew lattice decks — finite "
               "and infinite lattices, FILL arrays with self-fill and 0 entries, nested lattices, --lattice — against the "
-              "written file. Not proved: the 2- and 3-pair composition of squareLatticeBaseVectors (a corollary of "
-              "reciprocal_2d/3d, checked by the monitor) and the clipping of elements by the container."),
+              "written file. Not proved: the clipping of elements by the container (C05 theorem not restated for lattices)."),
         design_ref='§8 C06'),
     'C09': dict(
         technique='Lean 4 proof (char-level model of normalize_float) + model↔code correspondence on generated spellings + respelling oracle',
